@@ -24,8 +24,11 @@ Utf8(c) ==
 
 IsHtmlCp(c) == c = 60 \/ c = 62 \/ c = 38
 
+\* c = -1 stands for a byte of a Go string that is not valid UTF-8: the encoder writes the ESCAPE \ufffd
+\* for it (a genuine U+FFFD in the string is written raw)
 EncCp(c, esc) ==
-  IF c = 34 THEN <<92, 34>>
+  IF c = -1 THEN <<92, 117, 102, 102, 102, 100>>
+  ELSE IF c = 34 THEN <<92, 34>>
   ELSE IF c = 92 THEN <<92, 92>>
   ELSE IF c = 10 THEN <<92, 110>>
   ELSE IF c = 13 THEN <<92, 114>>
